@@ -2,6 +2,7 @@ import GdslModel.Model.Store
 import GdslModel.Model.Spec
 import GdslModel.Model.Search
 import GdslModel.Model.Container
+import GdslModel.Model.Own
 /-!
 Line-protocol driver: reads an annotated program on stdin, prints the model's observation
 stream (one line per request). The harness runs the same program on the real code.
@@ -18,6 +19,7 @@ structure St where
   s : S := {}
   dead : Bool := false             -- the case was cut after a panic of the model
   graphs : List (Nat × Cont Nat) := []   -- container slots
+  own : OwnSt Nat Nat := {}              -- ownership accounting (C19)
 
 def showList (l : List (Nat × Nat)) : String :=
   "[" ++ ",".intercalate (l.map fun (k, e) => s!"{k}:{e}") ++ "]"
@@ -337,6 +339,38 @@ def doMacro (st : St) (arg : String) : St × String :=
     | .panic k => (st, s!"panic {k}")
     | .ok ns s => (newWorld st ns s, s!"ok n={ns.length}")
 
+/-! ### ownership (C19) -/
+def sortNat (l : List Nat) : List Nat := l.mergeSort (fun a b => a ≤ b)
+
+def ownReq (st : St) (args : List String) : St × String :=
+  let n := fun (x : String) => x.toNat?
+  let op : Option (OwnOp Nat Nat) := match args with
+    | ["own.new", i, k] => (n i).bind fun i => (n k).map fun k => .new i k
+    | ["own.clone", a, b] => (n a).bind fun a => (n b).map fun b => .clone a b
+    | ["own.drop", i] => (n i).map fun i => .drop i
+    | ["own.connect", a, b, e] => (n a).bind fun a => (n b).bind fun b => (n e).map fun e => .connect a b e
+    | ["own.insert", g, a] => (n g).bind fun g => (n a).map fun a => .insert g a
+    | ["own.remove", g, k] => (n g).bind fun g => (n k).map fun k => .remove g k
+    | ["own.get", g, k, d] => (n g).bind fun g => (n k).bind fun k => (n d).map fun d => .get g k d
+    | ["own.edge", a, d] => (n a).bind fun a => (n d).map fun d => .edgeOf a d
+    | ["own.path", a, t, d] => (n a).bind fun a => (n t).bind fun t => (n d).map fun d => .pathTo a t d
+    | ["own.search", a, t, d] => (n a).bind fun a => (n t).bind fun t => (n d).map fun d => .searchTo a t d
+    | ["own.order", a, d] => (n a).bind fun a => (n d).map fun d => .orderOf a d
+    | _ => none
+  match args, op with
+  | ["own.graph", g], _ => match n g with
+    | some g => let o := (st.own.setSlot g []).settle; ({ st with own := o }, s!"rel={showKeys (sortNat o.released)}")
+    | none => (st, "bad-op")
+  | ["own.held", i], _ => match n i with
+    | some i => (st, s!"held={showKeys (sortNat (st.own.slot i).eraseDups)}")
+    | none => (st, "bad-op")
+  | _, none => (st, "bad-op")
+  | _, some op =>
+    let sel : S → Nat → List (Nat × Nat) := if st.directed then outAdj else unAdj
+    match st.own.step sel op with
+    | none => (st, "refused")
+    | some o => ({ st with own := o }, s!"rel={showKeys (sortNat o.released)}")
+
 def stripVia (line : String) : String :=
   match line.splitOn " #" with
   | h :: _ => h
@@ -378,7 +412,7 @@ def step (st : St) (line : String) : St × String :=
   | ["cmp", k1, v1, k2, v2] => match k1.toNat?, v1.toInt?, k2.toNat?, v2.toInt? with
     | some k1, some v1, some k2, some v2 => (st, doCmp k1 v1 k2 v2)
     | _, _, _, _ => (st, "bad-op")
-  | t :: rest => if t.startsWith "g." then contReq st (t :: rest) else (st, "bad-op")
+  | t :: rest => if t.startsWith "g." then contReq st (t :: rest) else if t.startsWith "own." then ownReq st (t :: rest) else (st, "bad-op")
   | _ => (st, "bad-op")
 
 partial def loop (h : IO.FS.Stream) (out : IO.FS.Stream) (st : St) : IO Unit := do
